@@ -269,13 +269,15 @@ def rates_from_bytes(b):
     return rows
 
 
-def lookups_for_state(rng, files, year, new_rows, today):
-    """Dates around where this state's file ends / differs, plus fixed and random ones."""
+def lookups_for_state(rng, files, year, new_rows, today, written=()):
+    """Dates around where this state's files (the live file and whatever the write procedure wrote to) end / differ,
+    plus fixed and random ones."""
     dates = set()
     name = "rates-%d.csv" % year
-    c = files.get(name)
     d0 = datetime.date(year, 1, 1)
-    if c is not None:
+    for c in [files.get(nm) for nm in [name] + sorted(set(written) - {name})]:
+        if c is None:
+            continue
         txt = c.decode("utf-8", "replace")
         last_line = txt.rstrip("\n").split("\n")[-1] if txt.strip() else ""
         m = re.match(r"^(\d{4}-\d{2}-\d{2})", last_line)
@@ -316,7 +318,7 @@ def scenario(rng, idx):
         cands = [d for d in cal.published if d.year == year and d < t1 - datetime.timedelta(days=3)]
         if cands:
             late = rng.choice(cands)
-    return {"year": year, "cal": cal, "t1": t1, "t2": t2, "t3": t3, "late": late, "debris": idx % 2 == 1}
+    return {"year": year, "cal": cal, "t1": t1, "t2": t2, "t3": t3, "late": late, "debris": idx % 3 == 1, "cold": idx % 3 == 2}
 
 
 def run_scenario(V, sc, idx, wd, tier, rng):
@@ -332,9 +334,11 @@ def run_scenario(V, sc, idx, wd, tier, rng):
     # run A: an earlier run leaves the old cache content
     caseA = {"id": "A", "cache": "csv", "dir": cache, "runs": [{"today": sc["t1"].isoformat(), "remote": remote_spec(vis1),
                                                               "lookups": [(sc["t1"] - datetime.timedelta(days=2)).isoformat()]}]}
-    rc, resA, err = harness_run(caseA, os.path.join(sdir, "A.json"))
-    if rc != 0 or resA is None:
-        raise common.Inconclusive("harness run A failed: %s" % err[-300:])
+    if not sc.get("cold"):
+        rc, resA, err = harness_run(caseA, os.path.join(sdir, "A.json"))
+        if rc != 0 or resA is None:
+            raise common.Inconclusive("harness run A failed: %s" % err[-300:])
+    # (cold: the very first download of the year is the one that gets interrupted; no live file exists yet)
     # hostile start state: debris of an earlier interrupted write may be lying around (a temporary file
     # longer than what will be written, with rows for the same dates but other values)
     if sc.get("debris"):
@@ -378,7 +382,7 @@ def run_scenario(V, sc, idx, wd, tier, rng):
         for n, c in files.items():
             with open(os.path.join(d, n), "wb") as f:
                 f.write(c)
-        dates = lookups_for_state(rng, files, year, new_rows, sc["t3"])
+        dates = lookups_for_state(rng, files, year, new_rows, sc["t3"], written={o["name"] for o in ops if o["op"] == "write"})
         cid = "s%d-%06d" % (idx, si)
         cases.append({"id": cid, "cache": "csv", "dir": d,
                       "runs": [{"today": sc["t3"].isoformat(), "remote": remote_spec(vis3), "lookups": [x.isoformat() for x in dates]}]})
@@ -493,14 +497,15 @@ def run(tier):
     if shutil.which("strace") is None:
         raise common.Inconclusive("strace is not installed")
     V = Verdict(PROP, tier, level="fault_enumeration")
-    V.rule = ("crash states derived from the strace log of a real cache rewrite (old content from an earlier run present): process-kill states = every "
+    V.rule = ("crash states derived from the strace log of a real cache rewrite (start states in rotation: old content from an earlier run; the same plus "
+              "debris of an earlier interrupted write; a cold cache directory whose first download is interrupted): process-kill states = every "
               "syscall boundary and byte cuts inside every write; power-loss states = additionally any prefix of un-fsynced data, a not-yet-durable "
               "truncation, and a rename durable before its un-fsynced data. quick: all row boundaries +-3 bytes, the first and last 200 offsets and ~300 "
-              "evenly spaced offsets of 2 year contents; thorough: every byte offset of 6 year contents. Each state is queried by a fresh RateLoader "
+              "evenly spaced offsets of 3 year contents; thorough: every byte offset of 9 year contents. Each state is queried by a fresh RateLoader "
               "(dates around the cut, rows that differ from the complete file, first/last dates, random). non-trivial = distinct (scenario, crash state)")
     V.assumptions = ["ordered-prefix persistence inside one file (no block reordering)", "a crashed writer leaves no other process writing the same file",
                      "the syscall log of one run is representative of the write procedure (it is deterministic code)"]
-    n = {"quick": 2, "thorough": 6}[tier]
+    n = {"quick": 3, "thorough": 9}[tier]
     wd = common.workdir("c14")
     try:
         for i in range(n):
